@@ -56,7 +56,15 @@ pub fn random_sched(rng: &mut Rng, plen: usize, n: usize) -> Vec<usize> {
 
 /// Run one chain.  Returns the number of packets produced.
 pub fn run_chain(out: &mut Out, rng: &mut Rng, c: &ChainCfg, what: &str) -> usize {
-    let pdu = Pdu::random(out, c.plen, rng);
+    run_chain_with(out, rng, c, what, None)
+}
+
+/// `content`: the PDU bytes (length c.plen) instead of random ones
+pub fn run_chain_with(out: &mut Out, rng: &mut Rng, c: &ChainCfg, what: &str, content: Option<Vec<u8>>) -> usize {
+    let pdu = match content {
+        Some(b) => Pdu::new(out, b),
+        None => Pdu::random(out, c.plen, rng),
+    };
     let small = Pdu::random(out, 5, rng);
     let mgr = TableMgr { known: vec![] };
     let storage = c.plen.max(5).max(1) + c.extra_storage;
@@ -232,6 +240,53 @@ pub fn run(out: &mut Out, seed: u64, thorough: bool) {
                     reset_after: None,
                 };
                 run_chain(out, &mut rng, &cfg, "full_first");
+            }
+        }
+    }
+    // content: label bytes and PDU bytes that look like something else - all zeros, all ones, a GSE header, a
+    // whole GSE packet, a padding run, the label itself - sent complete and in three fragments, with the label
+    // written in full and replaced by re-use; protocol types whose bytes look like length or flag fields
+    let odd_labels = [
+        Label::SixBytesLabel([0xFF; 6]),
+        Label::ThreeBytesLabel([0xFF; 3]),
+        Label::ThreeBytesLabel([0, 0, 0]),
+        Label::SixBytesLabel([0, 0, 0, 0, 0, 1]),
+        Label::SixBytesLabel([1, 0, 0, 0, 0, 0]),
+        Label::SixBytesLabel([0xC0, 0x1A, 0x08, 0x00, 0x30, 0x00]),
+        Label::ThreeBytesLabel([0x30, 0x00, 0x00]),
+        Label::Broadcast,
+    ];
+    let inner_packet = {
+        // a complete GSE packet as PDU content
+        let mut v = vec![0xC0u8, 0x0A, 0x08, 0x00, 9, 9, 9, 1, 2, 3, 4, 5];
+        v.extend([0u8; 12]);
+        v
+    };
+    let contents: Vec<Vec<u8>> = vec![
+        vec![0u8; 24],
+        vec![0xFFu8; 24],
+        inner_packet.clone(),
+        [vec![0u8, 0], vec![0x55; 22]].concat(),
+        [vec![0xFFu8, 0xFF, 0xFF, 0xFF], vec![0u8; 20]].concat(),
+        (0..24u8).map(|i| if i % 2 == 0 { 0x30 } else { 0x01 }).collect(),
+    ];
+    for (li, label) in odd_labels.iter().enumerate() {
+        for (ci, content) in contents.iter().enumerate() {
+            for (si, sched) in [vec![4097usize], vec![7 + label.len() + 8, 3 + 8, 4097]].iter().enumerate() {
+                let subst = (li + ci + si) % 2 == 1 && *label != Label::Broadcast;
+                let sched: Vec<usize> = if subst && si == 1 { vec![7 + 8, 3 + 8, 4097] } else { sched.clone() };
+                let cfg = ChainCfg {
+                    plen: content.len(),
+                    label: *label,
+                    subst_first: subst,
+                    ptype: [0x0600u16, 0xFFFF, 0xFF00, 0x3000, 0x0800, 0xC00A][(li + ci) % 6],
+                    fragid: [0u8, 0xFF, 0x30, 0xC0][(li + ci) % 4],
+                    sched,
+                    slots: 2,
+                    extra_storage: ci % 2,
+                    reset_after: None,
+                };
+                run_chain_with(out, &mut rng, &cfg, "content", Some(content.clone()));
             }
         }
     }
